@@ -263,6 +263,8 @@ func TestVerif(t *testing.T) {
 		if r.Thorough() {
 			depth = 2
 		}
+		// first, so that the thorough tier's soft deadline (spent on depth-2 deviations) never cuts it short
+		h.graphPass()
 		cells := pktgen.Cells()
 		types := map[string]bool{}
 		slowNoted := 0
@@ -304,7 +306,6 @@ func TestVerif(t *testing.T) {
 				return true
 			})
 		}
-		h.graphPass()
 		r.Extra("deviation_depth", fmt.Sprint(depth))
 	})
 }
